@@ -245,6 +245,9 @@ def main(argv=None):
     extra_cov = {}
     if tier == "thorough" and prop in ("C01", "C12", "C14"):
         extra_cov["lean_lemmas"] = lean_status()
+    if prop == "C08":
+        # the composition step of the prefix argument (core Lean, ~10 s, cached by file hash): every tier
+        extra_cov["lean_prefix_lemma"] = lean_status("Prefix.lean", "prefix_of_unlimited / limited_run_is_prefix (composition of the loop contracts into 'limited run == prefix of the unlimited run')", timeout=300)
     if prop == "C06":
         extra_cov = assert_coverage(ledger)
     wall = time.time() - t0
@@ -294,23 +297,23 @@ def main(argv=None):
     return 0
 
 
-def lean_status():
-    """compile lean/LA.lean (LA1-LA5); cached by file hash; a failing build means the lemmas are ASSUMED this run"""
+def lean_status(fname="LA.lean", what="LA1-LA5", timeout=1500):
+    """compile lean/<fname>; cached by file hash; a failing build means the lemmas are ASSUMED this run"""
     import subprocess
 
-    src = os.path.join(ROOT, "lean", "LA.lean")
+    src = os.path.join(ROOT, "lean", fname)
     h = hashlib.sha256(open(src, "rb").read()).hexdigest()[:16]
     cache = os.path.join(ROOT, "lean", ".cache_" + h)
     if os.path.exists(cache):
         return json.load(open(cache))
     t0 = time.time()
     try:
-        p = subprocess.run(["lean", src], capture_output=True, text=True, timeout=1500, cwd=os.path.join(ROOT, "lean"))
-        ok = p.returncode == 0 and "error" not in p.stdout.lower()
-        out = {"file": "lean/LA.lean", "sha": h, "built": ok, "seconds": round(time.time() - t0, 1), "output_tail": (p.stdout + p.stderr)[-400:],
-               "status": "LA1-LA5 machine-checked by Lean 4 / Mathlib on this run" if ok else "Lean build failed: LA1-LA5 are ASSUMED for this run"}
+        p = subprocess.run(["lean", src], capture_output=True, text=True, timeout=timeout, cwd=os.path.join(ROOT, "lean"))
+        ok = p.returncode == 0 and "error" not in p.stdout.lower() and "sorry" not in p.stdout.lower()
+        out = {"file": "lean/" + fname, "sha": h, "built": ok, "seconds": round(time.time() - t0, 1), "output_tail": (p.stdout + p.stderr)[-400:],
+               "status": f"{what} machine-checked by Lean 4 on this run" if ok else f"Lean build failed: {what} ASSUMED for this run"}
     except Exception as e:  # noqa
-        out = {"file": "lean/LA.lean", "sha": h, "built": False, "status": f"Lean not run ({type(e).__name__}): LA1-LA5 are ASSUMED for this run"}
+        out = {"file": "lean/" + fname, "sha": h, "built": False, "status": f"Lean not run ({type(e).__name__}): {what} ASSUMED for this run"}
     if out.get("built"):
         json.dump(out, open(cache, "w"))
     return out
